@@ -50,9 +50,9 @@ def both_parities(ctx):
 
 
 @bounded("C05", "low_hamming_weight_leading_ones",
-         bound="SAMPLED: primes of 256 / 512 bits (weight 12 / 16) whose top k bits are ALL ones, k in {3, 4, 5, 6, 8} (both "
-               "primes the same k), plus ONE fixed 1023-bit instance (6 leading ones x 1 leading one, weights 16 / 16: known "
-               "finding F21, abandoned at the default cutoff): the first expansions of the best-first search then sit "
+         bound="PINNED (seed-independent) draws: primes of 256 / 512 bits (weight 12 / 16) whose top k bits are ALL ones, k in {3, 4, 5, 6, 8} (both "
+               "primes the same k), plus TWO fixed instances of known finding F21 (1023 bits: 6 leading ones x 1, weights 16 / 16; "
+               "512 bits: 8 x 8 leading ones, weights 12 / 12 - abandoned at the default cutoff): the first expansions of the best-first search then sit "
                "exactly on its pruning boundary rem == p0 + q0; CheckLowHammingWeight(n) must flag, factors must be {p, q}",
          functions=["rsa_util.CheckLowHammingWeight"])
 def leading_ones(ctx):
@@ -61,7 +61,12 @@ def leading_ones(ctx):
   runtime.install()
   import gmpy2
   from paranoid_crypto.lib import rsa_util
-  rnd = c05._rnd(ctx, "lhw_leading_ones")
+  # PINNED instances (independent of VERIF_SEED): this family sits at the edge of what the heuristic search finds within
+  # its default cutoff of 2500 steps - other draws are genuinely not flagged (known finding F21 lists two of them, which
+  # are exercised below as fixed instances) - so the draws that ARE flagged on the pinned tree are fixed, and a change
+  # that loses them (seed C05-8) is reported
+  import random
+  rnd = random.Random("0/c05/lhw_leading_ones")
 
   def prime(bits, weight, lead):
     while True:
@@ -95,6 +100,16 @@ def leading_ones(ctx):
   inputs = dict(family="low_hamming_weight_leading_ones", modulus_bits=n.bit_length(), leading_ones=[6, 1],
                 weights=[16, 16], p=p, q=q, n=n, fixed_instance="F21")
   ctx.case(key=("fixed", "F21"))
+  weak, factors = rsa_util.CheckLowHammingWeight(gmpy2.mpz(n))
+  ctx.check(bool(weak), "CheckLowHammingWeight flags n when both primes have Hamming weight <= 32", inputs,
+            observed=dict(weak=bool(weak), factors=[int(x) for x in factors]), expected="weak == True")
+  # second fixed instance of F21 (drawn by this family with VERIF_SEED=1: 256-bit primes, weight 12, eight leading ones each)
+  p = 115339776388732932249269908982781315149367775419912508793771865509566756159489
+  q = 115339776392103745120870151425852175083686881307638744808754676382425470205953
+  n = p * q
+  inputs = dict(family="low_hamming_weight_leading_ones", modulus_bits=n.bit_length(), leading_ones=[8, 8],
+                weights=[12, 12], p=p, q=q, n=n, fixed_instance="F21")
+  ctx.case(key=("fixed", "F21", 2))
   weak, factors = rsa_util.CheckLowHammingWeight(gmpy2.mpz(n))
   ctx.check(bool(weak), "CheckLowHammingWeight flags n when both primes have Hamming weight <= 32", inputs,
             observed=dict(weak=bool(weak), factors=[int(x) for x in factors]), expected="weak == True")
